@@ -79,8 +79,29 @@ partial def toLinear : Sx → Option (List Int × List Closed.Stg)
   | .list [.atom "skip", n, p] => match sxNat n, toLinear p with | some n, some (xs, ss) => some (xs, ss ++ [.skip n]) | _, _ => none
   | _ => none
 
-/-- … as ONE machine: `Closed.chainM xs ss` — the term `Closed.linear_correct` (Closed/Linear.lean) is about -/
-def toAnyM (sx : Sx) : Option Closed.AnyM := (toLinear sx).map fun (xs, ss) => Closed.chainM xs ss
+/-- unary stage of a program text -/
+def toStg : Sx → Option (Closed.Stg × Sx)
+  | .list [.atom "map", .atom "add", k, p] => (sxInt k).map fun k => (.map (· + k), p)
+  | .list [.atom "map", .atom "mul", k, p] => (sxInt k).map fun k => (.map (· * k), p)
+  | .list [.atom "filter", .atom "mod", m, r, p] => match sxInt m, sxInt r with
+    | some m, some r => some (.filter (fun x => x % m == r), p) | _, _ => none
+  | .list [.atom "scan", .atom "lin", b, s, p] => match sxInt b, sxInt s with | some b, some s => some (.scan (scanLinP b) s, p) | _, _ => none
+  | .list [.atom "take", n, p] => (sxNat n).map fun n => (.take n, p)
+  | .list [.atom "skip", n, p] => (sxNat n).map fun n => (.skip n, p)
+  | _ => none
+
+/-- … as ONE machine.  Linear programs: `Closed.chainM xs ss` — the term `Closed.linear_correct` (Closed/Linear.lean) is about.
+Programs with `concat!`: every member is built recursively and PLUGGED into its slot of the n-ary concat machine (`Ops/Plug.lean`),
+and stages applied to the result are composed on top.  `flatmap` creates sources dynamically and has no static network: `none`. -/
+partial def toAnyM (sx : Sx) : Option Closed.AnyM :=
+  match toLinear sx with
+  | some (xs, ss) => some (Closed.chainM xs ss)
+  | none =>
+    match sx with
+    | .list (.atom "concat" :: ms) => (ms.mapM toAnyM).map Closed.concatM
+    | _ => match toStg sx with
+      | some (st, p) => (toAnyM p).map fun A => Closed.thenM A st.toM
+      | none => none
 
 def fmtL (l : List Int) : String := "[" ++ ",".intercalate (l.map toString) ++ "]"
 
